@@ -357,6 +357,16 @@ pub fn run(run: &Arc<Run>) {
                 // checks that subtract to pairs whose difference is representable
                 if a > b || b.checked_sub(*a).is_some() {
                     $f(c, l, *a, *b);
+                } else {
+                    // high - low is not representable: the value of width() is not judged (it panics in a
+                    // checked build and wraps in a production build), but a two-sided interval has a width
+                    let i = Interval::TwoSided(*a, *b);
+                    l.eval();
+                    match sci_common::rt::caught(|| i.width()) {
+                        Ok(None) => bad(c, l, "width|TwoSided|none", "a two-sided interval reports no width (inconsistent with is_two_sided)".into(), json!({"interval": format!("{:?}", i)})),
+                        Ok(Some(_)) => l.count("width of an interval wider than the element type: Some"),
+                        Err(_) => l.count("width of an interval wider than the element type: overflow panic (checked build)"),
+                    }
                 }
                 judge_hash(c, l, a, b);
             });
@@ -414,11 +424,29 @@ pub fn run(run: &Arc<Run>) {
     sweep::<f64>(run, "f64", vec![f64::NEG_INFINITY, -1.0, -0.0, 0.0, 5e-324, 1.0, 1e300, f64::INFINITY], &|c, l, a, b| {
         if (a.is_finite() || b.is_finite()) || a.signum() != b.signum() {
             num_f64(c, l, *a, *b)
+        } else if a <= b {
+            // [inf, inf] / [-inf, -inf]: high - low is NaN, so the value is not judged, but the interval is
+            // two-sided and degenerate and must report a width
+            let i = Interval::TwoSided(*a, *b);
+            l.eval();
+            l.count("width of a degenerate interval at an infinity");
+            if i.width().is_none() || !i.is_two_sided() || !i.is_degenerate() {
+                bad(c, l, "width|TwoSided|none", "a degenerate two-sided interval at an infinity reports no width / is not two-sided and degenerate".into(), json!({"interval": format!("{:?}", i), "width": format!("{:?}", i.width())}));
+            }
         }
     });
     sweep::<f32>(run, "f32", vec![f32::NEG_INFINITY, -1.0, -0.0, 0.0, 1e-45, 1.0, f32::MAX, f32::INFINITY], &|c, l, a, b| {
         if (a.is_finite() || b.is_finite()) || a.signum() != b.signum() {
             num_f32(c, l, *a, *b)
+        } else if a <= b {
+            // [inf, inf] / [-inf, -inf]: high - low is NaN, so the value is not judged, but the interval is
+            // two-sided and degenerate and must report a width
+            let i = Interval::TwoSided(*a, *b);
+            l.eval();
+            l.count("width of a degenerate interval at an infinity");
+            if i.width().is_none() || !i.is_two_sided() || !i.is_degenerate() {
+                bad(c, l, "width|TwoSided|none", "a degenerate two-sided interval at an infinity reports no width / is not two-sided and degenerate".into(), json!({"interval": format!("{:?}", i), "width": format!("{:?}", i.width())}));
+            }
         }
     });
     sweep::<char>(run, "char", vec!['\0', 'A', 'a', 'b', 'z', '\u{10ffff}'], &|c, l, a, b| judge_hash(c, l, a, b));
